@@ -13,6 +13,7 @@ import (
 	"reflect"
 	"sort"
 	"strings"
+	"verifharness/internal/cat"
 
 	"github.com/cockroachdb/errors"
 	"github.com/cockroachdb/errors/errbase"
@@ -62,12 +63,66 @@ type Registry struct {
 	Wrap  []string `json:"wrap"`
 	Multi []string `json:"multi"`
 	Pay   []string `json:"pay"`
+	// type keys of catalogue types that have no decoder: the library may still
+	// treat them specially by name (printed stacks, encoders)
+	NamedLeaf []string `json:"namedLeaf"`
+	NamedWrap []string `json:"namedWrap"`
 }
 
 // Dump lists the decoder keys of the live registries.
 func Dump() *Registry {
 	reg := errbase.VerifRegistryKeys()
-	return &Registry{Leaf: reg["leafDecoders"], Wrap: reg["decoders"], Multi: reg["multiCauseDecoders"], Pay: PayloadKinds()}
+	r := &Registry{Leaf: reg["leafDecoders"], Wrap: reg["decoders"], Multi: reg["multiCauseDecoders"], Pay: PayloadKinds(),
+		NamedLeaf: []string{}, NamedWrap: []string{}}
+	has := map[string]bool{}
+	for _, l := range [][]string{r.Leaf, r.Wrap, r.Multi} {
+		for _, k := range l {
+			has[k] = true
+		}
+	}
+	var names []string
+	for ty := range cat.Samples {
+		names = append(names, ty)
+	}
+	sort.Strings(names)
+	for _, ty := range names {
+		e := cat.Samples[ty]
+		k := string(errors.GetTypeKey(e))
+		if has[k] {
+			continue
+		}
+		has[k] = true
+		if errors.UnwrapOnce(e) != nil {
+			r.NamedWrap = append(r.NamedWrap, k)
+		} else {
+			r.NamedLeaf = append(r.NamedLeaf, k)
+		}
+	}
+	// encoder-only keys
+	for _, k := range reg["leafEncoders"] {
+		if !has[k] {
+			has[k] = true
+			r.NamedLeaf = append(r.NamedLeaf, k)
+		}
+	}
+	for _, k := range reg["encoders"] {
+		if !has[k] {
+			has[k] = true
+			r.NamedWrap = append(r.NamedWrap, k)
+		}
+	}
+	return r
+}
+
+// StackLike are reportable strings in the style of a printed stack trace, well
+// formed and not.
+var StackLike = []string{
+	"\nmain.f\n\t/src/main.go:12\nmain.main\n\t/src/main.go:30\nruntime.main\n\t/go/src/runtime/proc.go:250",
+	"main.f\n\t/src/main.go:12\n\t\t(inlined)\nmain.main\n\t/src/main.go:30",
+	"\t/src/main.go:12\n\t/src/main.go:13\n\t\n\t",
+	"unknown\nunknown\nmain.f\n\tno-line-number\nmain.g\n\t/x.go:99999999999999999999999\nmain.h\n\t:\n\n\n",
+	"main.f\n\t/src/main.go:12\n\t/src/main.go:13",
+	"\n\n",
 }
 
 func anyOf(kind string) *types.Any {
@@ -113,6 +168,10 @@ func Build(key, form, pay, pos string, ndet, mt int) errorspb.EncodedError {
 	}
 	for i := 0; i < ndet; i++ {
 		det.ReportablePayload = append(det.ReportablePayload, fmt.Sprintf("Zq%dx", 50+i))
+	}
+	if ndet < 0 {
+		// -k: the k-th stack-like string as first reportable string
+		det.ReportablePayload = append(det.ReportablePayload, StackLike[(-ndet-1)%len(StackLike)], "Zq51x")
 	}
 	var node errorspb.EncodedError
 	switch form {
@@ -171,9 +230,12 @@ func Fuzz(seed int) errorspb.EncodedError {
 	keys = append(keys, reg.Leaf...)
 	keys = append(keys, reg.Wrap...)
 	keys = append(keys, reg.Multi...)
+	keys = append(keys, reg.NamedLeaf...)
+	keys = append(keys, reg.NamedWrap...)
 	keys = append(keys, "", "no/such.Type", "\xff\x00", "‹›")
 	pays := PayloadKinds()
 	strs := []string{"", "Zq7x", "a: b", "‹x›", "\n", "%d %s", "\xff", "x\ny", strings.Repeat("z", 300)}
+	strs = append(strs, StackLike...)
 	var gen func(depth int) errorspb.EncodedError
 	gen = func(depth int) errorspb.EncodedError {
 		key := keys[r.Intn(len(keys))]
